@@ -2,6 +2,7 @@ package c20
 
 import (
 	"fmt"
+	"math"
 	"reflect"
 	"strings"
 
@@ -122,7 +123,30 @@ func setCollators(r *engine.Rec) {
 	setCollatorsOf(r, "string", "case-insensitive", func(a, b string) age.Rank { return cmp(strings.Compare(strings.ToLower(a), strings.ToLower(b)), 0) }, []string{"b", "B", "a", "A"})
 	setCollatorsOf(r, "int", "magnitude", func(a, b int) age.Rank { return cmp(abs(a), abs(b)) }, []int{3, -3, 1, -1})
 	setCollatorsOf(r, "int", "reversed", func(a, b int) age.Rank { return cmp(b, a) }, []int{1, 2, 3, 4})
+	// values that Go cannot hash or compare with == (the library's Arrays and Maps are named slices and maps), ordered by
+	// the natural collator handed over as the caller's; and a collator finer than == (it tells the zeros apart by sign)
+	nat := age.Collator[any]().Make()
+	N := common.N
+	setCollatorsOf[any](r, "any", "natural (values Go cannot hash)", func(a, b any) age.Rank { return nat.RankValues(a, b) }, []any{
+		col.Array[int64](N()).MakeFromArray([]int64{1, 2}), col.Array[int64](N()).MakeFromArray([]int64{1}),
+		col.Map[string, int64](N()).MakeFromMap(map[string]int64{"k": 1}), []int{3}})
+	setCollatorsOf[float64](r, "float64", "zeros told apart by sign", func(a, b float64) age.Rank {
+		if a == b {
+			return cmp(btoi(!math.Signbit(a)), btoi(!math.Signbit(b)))
+		}
+		if a < b {
+			return age.LesserRank
+		}
+		return age.GreaterRank
+	}, []float64{0, math.Copysign(0, -1), 1.5, -2.5})
 	r.Sample(collCase{"string", "case-insensitive", "[b B]", "collator+[]V", "absent"})
+}
+
+func btoi(b bool) int {
+	if b {
+		return 1
+	}
+	return 0
 }
 
 // ---- the CDCN-source form, called again after an earlier result was changed ----
